@@ -26,6 +26,22 @@ add("C12", "Lean 4 proof of the set laws on the engine model (and unconditional;
     "C12_and, C12_or_partial, C12_not_partial, C12_equiv and the equivalence instances hold for all graphs, FROM lists and atom meanings, including atoms outside any reference fragment. The full or/not laws are refuted in Lean by a witness and on the implementation by a replay (recorded finding C12:runtime-error-in-operand). The check evaluates related queries on the real engine and verifies the laws on the real result sets, and runs all of them through the Lean model.",
     COMMON_NOTE, "DESIGN.md §6 C12")
 
+add("C10", "Lean 4 proof of totality of the modelled query front end (listener never dereferences an absent child on well-formed trees; console answers every line) + outcome-class correspondence on a malformed-query stream + real-CLI console sessions + native Go fuzzing (thorough)",
+    "The model carries each partial Go operation explicitly (Outcome.panic). C10_walk_total / C10_prepare_total_partial: no character string makes lexer+parser+listener+predicate expansion end abnormally, given that accepted inputs have well-formed parse trees (hypothesis AcceptedTreesWF, re-validated by the driver on every accepted input of every run; its general proof from recogniser conformance is not done). C10_console_survives: the session answers every complete line before :quit for every chunking of stdin. The evaluator side is total by construction in the model. Against the real code: token-mutated and arbitrary strings, a list of unusual-but-valid queries (non-boolean WHERE, zero-argument calls, 3-4 entities, unknown accessors/aliases/kinds, recursive and ambiguous predicates, deep nesting), each against an empty and a non-empty graph in both output modes; outcome must be ok or diag and must equal the model's class.",
+    COMMON_NOTE + " Panics inside ANTLR's runtime, expr-lang and encoding/json are outside the model (searched by the malformed stream and fuzzing only).", "DESIGN.md §6 C10")
+add("C13", "Lean 4 proofs about the modelled predicate resolution and expansion (unused declarations, reordering, exact-call expansion, renaming) + text-for-text correspondence of the expansion + metamorphic oracle on the real engine",
+    "C13_unused_*, C13_reorder_match, C13_call_exact, C13_rename_ident hold for all inputs of the model of ReplacePredicateVariables/matchPredicate (as repaired). The general inlining statement (C13_inline_full) is stated but not proved (it needs a parser-substitution lemma); it is covered by correspondence (Lean expansion text = real expansion text on every generated query) and by the oracle: call inlined by the generator, aliases / formals renamed to adversarial identifiers (substrings of others), unused predicates added, declarations reordered — result multisets must be equal on the real engine.",
+    COMMON_NOTE, "DESIGN.md §6 C13")
+add("C14", "Lean 4 proof that the modelled pipeline factors through the lexer's token list + lexer correspondence (model vs ANTLR) on random layouts and strings + re-layout oracle on the real engine",
+    "C14_parse / C14_prepare / C14 / C14_valid: two inputs with equal token lists get the same structure, condition, validity and results, for all graphs and atom meanings. The lexer model (maximal munch over rules regenerated from Query.g4) is tied to ANTLR's lexer on random character strings and on every generated layout; the oracle re-lays-out each query several times (spaces, tabs, CR/LF, no separator where allowed) and compares validity and result multisets on the real engine. The white-space-in-' in ' exception is a recorded finding. The pretty-print/lex round trip (lex_layout) is not proved in Lean.",
+    COMMON_NOTE, "DESIGN.md §6 C14")
+add("C15", "Lean 4 proof of row/cell alignment and of text/JSON location agreement on the output model + CLI-level oracle in every output mode, with the expected row layout taken from the Lean model",
+    "C15_rows, C15_cell, C15_modes, C15_text_row, C15_numbered hold for all result lists, SELECT lists and evaluators (the model mirrors generateOutput's switch, which appends nothing for an unknown item type, and processQuery's JSON/text assembly). The real CLI is run in all six mode combinations on projects whose snippets contain quotes, backslashes, control characters, HTML-sensitive and non-ASCII text: single well-formed JSON document, snippets preserved byte for byte, each cell equals the selected attribute of that row's own entity, identical location multisets in all modes, text-mode numbering.",
+    COMMON_NOTE + " fatih/color TTY detection and cobra flag parsing are exercised, not modelled.", "DESIGN.md §6 C15")
+add("C16", "Lean 4 proof over all chunkings of stdin (buffered-reader refinement), regenerated source facts (reader outside loop, accessors read-only) decided in Lean, + history-vs-fresh differential and console-vs-stand-alone oracle",
+    "C16_console / C16_console_chunking: for every way the input bytes are delivered, the console transcript equals the stand-alone answers of the complete lines up to :quit; C16_console_fresh_reader_fails refutes the pre-fix behaviour. C16_reader_outside_loop and C16_env_read_only are `decide`d on facts re-extracted from the Go source each run; C16_history follows. Against the real code: sequences (1..24) of valid/invalid/repeated queries on one loaded graph, each answer compared with a freshly scanned graph's; console sessions with piped and incrementally written stdin compared line by line with stand-alone runs.",
+    COMMON_NOTE, "DESIGN.md §6 C16")
+
 def main():
     hooks_commits = subprocess.run(["git", "-C", "/repo", "log", "--format=%H %s", "--grep=^verif:"], capture_output=True, text=True).stdout.strip().splitlines()
     m = dict(
